@@ -1,7 +1,8 @@
 """C12 — barrier: nobody passes round k before all arrived; reusable at once (structural part)."""
 from core import strip, is_field, key_mentions, order_ge, key_str
 from facts import AnalysisBroken
-from rules import (check_init, nodeset, ev, Unevaluable, forced_edges, atom_from, reach, atomic_ops, ret_const, is_var_load)
+from rules import (field_load, check_init, nodeset, ev, Unevaluable, forced_edges, atom_from, reach, atomic_ops, ret_const, is_var_load)
+from props import c01
 
 EXPLANATION = (
     "Decides the arrival protocol's structure: one atomic fetch-add per arrival; the arrival whose number is a multiple "
@@ -21,6 +22,9 @@ WAKEQ = "fiber_manager_wake_from_mpsc_queue"
 
 def run(ctx):
     P = ctx.prog()
+    c01.core_dependency(ctx, P, "core.dep", ('fiber_manager_wait_in_mpsc_queue', 'fiber_manager_wait_in_mpsc_queue_and_unlock', 'fiber_manager_wake_from_mpsc_queue'),
+                        "the barrier's sleep/wake path (wait_in_mpsc_queue / wake_from_mpsc_queue)",
+                        'an arrival that is never rescheduled leaves the round incomplete for ever')
     f = P.fn("fiber_barrier_wait")
     ops = atomic_ops(f, B, "counter")
     o = ctx.ob("arrive", f, "one atomic fetch-add of 1 on `counter`; the serial path is taken exactly when (old+1) % count == 0; it returns "
@@ -36,8 +40,7 @@ def run(ctx):
         o.fail("wake / wait call missing", site=f.loc, construct="barrier shape")
         return
     isop = lambda n: n is op.node
-    iscount = lambda n: (n.k == "ImplicitCastExpr" and n.ck == "LValueToRValue" and strip(n).k == "MemberExpr"
-                         and strip(n).field == "count" and strip(n).rec == B)
+    iscount = field_load("count", B)
     for count in (1, 2, 3, 5):
         for old in list(range(0, 12)) + [2 ** 32 - 2, 2 ** 32 - 1, 2 ** 32, 3 * (2 ** 32 // 3) + 2]:
             atom = atom_from([(isop, old), (iscount, count)])
